@@ -42,6 +42,8 @@ def run(cx):
     from rules.common import hook_discipline
     cx.rule("C19.R6", "K1", "every tick examines every task of the process that carries a timeout rule: selected by the presence of the rule only, visited one by one without early exit, a failing rule is reported and the pass goes on")
     r6_tick_pass(cx)
+    cx.rule("C19.R7", "K1", "every declared timeout rule is registered: Step::init and Act::init hand each element of their `timeout` list to add_hook_timeout, whatever kind of act it is (a func act that stays open - block, parallel, sequence, subflow - is timed like an irq)")
+    r7_registered(cx)
     cx.rule("C19.R5", "K3", "hook registration discipline: timeout rules are stored only under the Timeout key and nothing else is (justifies the pruning used by R2/R3)")
     hook_discipline(cx, "C19.R5")
     cx.floor("C19.R5", 8)
@@ -280,3 +282,34 @@ def r6_tick_pass(cx):
     # by every update of the task row (otherwise a reloaded task looks as if it had been open since 1970, or fires again)
     from rules import c12
     c12.r6(cx, "C19.R6", only={("task", "start_time"), ("task", "data")}, floor=6)
+
+
+def r7_registered(cx):
+    m = cx.m
+    pa = Prov(m, "alias")
+    from vlib.model import conditions_of
+    from rules.c01 import gdesc
+    allowed = [r"^Context::eval\?=True$", r"is_empty=False$", r"^match\(.*Iterator.*next\)=Some$", r"^match\(.*branch.*\)=Continue$", r"Iterator>::next", r"^Gt\(.*len\(\).*\)=True$", r"^Ne\(.*len\(\).*\)=True$"]
+    n = 0
+    for kind in ("step::Step", "act::Act"):
+        f = m.one(r"impl acts::scheduler::ActTask for acts::model::%s>::init$" % kind)
+        view = m.inlined_view(f, lambda c: not c.q.endswith("Task::add_hook_timeout") and any(x.q.endswith("Task::add_hook_timeout") for x in m.fns[c.q].calls()))
+        regs = [c for c in view.calls() if c.q.endswith("Task::add_hook_timeout")]
+        ok_src = []
+        for c in regs:
+            v = pa.root(view, c.args[2]) if len(c.args) > 2 else ("?",)
+            src = pa.iter_source(view, ("call", v[1], v[2], ())) if v[0] == "call" else None
+            fld = src[0] if src else None
+            from_list = fld is not None and fld[0] == "param" and fld[1] == 1 and tuple(fld[3])[-1:] == ("timeout",)
+            if from_list:
+                ok_src.append(c)
+        n += 1
+        if not ok_src:
+            cx.ob("C19.R7", "%s:registered" % f.short, False, "`%s` hands the elements of `self.timeout` to add_hook_timeout - no such call found: the rules declared on the node never reach the tick" % f.short, f.loc())
+            continue
+        c = ok_src[0]
+        conds = sorted({gdesc(m, g) for g in conditions_of(m, view, c.b, mode="value") if not g.neutral})
+        extra = [d for d in conds if not any(re.search(p_, d) for p_ in allowed)]
+        cx.ob("C19.R7", "%s:registered" % f.short, not extra,
+              "`%s` registers every element of `self.timeout` whatever else is true of the node (conditions: %s)%s" % (f.short, conds, "" if not extra else " - the registration also depends on %s" % extra), c.loc)
+    cx.floor("C19.R7", 2)
